@@ -7,6 +7,8 @@ import HexVerif.Cli.Model
     rendering of a valid item list.
   Both by induction over the loop, for all argument lists.
 -/
+set_option linter.unusedSimpArgs false
+
 namespace Hex.Cli
 
 theorem lastSome_getD_cons {α : Type} (f : Item → Option α) (i : Item) (is : List Item) (d : α) :
@@ -130,6 +132,7 @@ structure AsmCmd where
   instrsOnly : Bool
   file : String
   out : String
+  deriving DecidableEq
 
 def AsmCmd.opts (c : AsmCmd) : AsmOpts := ⟨c.tokensOnly, c.instrsOnly, some c.file, c.out⟩
 
@@ -315,6 +318,7 @@ structure XcmpCmd where
   mem : Bool
   file : String
   out : String
+  deriving DecidableEq
 
 def XcmpCmd.opts (c : XcmpCmd) : XcmpOpts := ⟨c.action, some c.file, c.out, c.mem⟩
 
@@ -488,6 +492,7 @@ structure SimCmd where
   trace : Bool
   maxCycles : Nat
   file : String
+  deriving DecidableEq
 
 def SimCmd.opts (c : SimCmd) : SimOpts := ⟨some c.file, c.dump, c.trace, c.maxCycles⟩
 
@@ -662,6 +667,7 @@ structure RunCmd where
   trace : Bool
   maxCycles : Nat
   file : String
+  deriving DecidableEq
 
 def RunCmd.opts (c : RunCmd) : RunOpts := ⟨some c.file, c.trace, c.maxCycles⟩
 
